@@ -1,8 +1,10 @@
 (* C01 (K3), part 2: flag sets, the header of the code object, and what decode_code exposes. *)
 From Coq Require Import ZArith List Bool Lia ZifyBool.
 From PCD Require Import Base.PyBase Base.Cfg Model.Flags Model.Args Model.Data Model.Consts
-  Model.LineTable Model.Blocks Model.CodeData Spec.Sig
-  Proofs.C11_Statements Proofs.FlagsProofs Proofs.ArgsProofs.
+  Model.LineTable Model.Blocks Model.CodeData Spec.Sig Spec.Lnotab Spec.Dis Model.ViewSer
+  Proofs.C02_Statements Proofs.C11_Statements Proofs.C01_Statements
+  Proofs.FlagsProofs Proofs.ArgsProofs.
+From PCD Require Proofs.ConstsProofs.
 Import ListNotations. Open Scope Z_scope.
 
 (* ------------------------------------------------------------------ *)
@@ -161,18 +163,19 @@ Proof. intros -> n []. Qed.
 Lemma bool_iff_mem f l : (flag_mem f l = true <-> In (flag_id f) (fids l)).
 Proof. apply flag_mem_fids. Qed.
 
-Ltac by_ids n :=
-  destruct (Z.eq_dec n 0) as [->|?]; [intuition (try lia; try congruence)|];
-  destruct (Z.eq_dec n 1) as [->|?]; [intuition (try lia; try congruence)|];
-  destruct (Z.eq_dec n 2) as [->|?]; [intuition (try lia; try congruence)|];
-  destruct (Z.eq_dec n 3) as [->|?]; [intuition (try lia; try congruence)|];
-  destruct (Z.eq_dec n 4) as [->|?]; [intuition (try lia; try congruence)|];
-  destruct (Z.eq_dec n 5) as [->|?]; [intuition (try lia; try congruence)|];
-  destruct (Z.eq_dec n 6) as [->|?]; [intuition (try lia; try congruence)|];
-  destruct (Z.eq_dec n 7) as [->|?]; [intuition (try lia; try congruence)|];
-  destruct (Z.eq_dec n 9) as [->|?]; [intuition (try lia; try congruence)|];
-  destruct (Z.eq_dec n 17) as [->|?]; [intuition (try lia; try congruence)|];
-  intuition (try lia; try congruence).
+Ltac close_b :=
+  match goal with
+  | H : ?b = true <-> ?P, HM : ?P |- ?b = true => apply H; exact HM
+  end.
+Ltac close_m :=
+  match goal with
+  | H : ?b = true <-> ?P, Hb : ?b = true |- ?P => apply H; exact Hb
+  end.
+Ltac pick := first [ left; split; [close_b | reflexivity] | left; reflexivity | right; pick ].
+Ltac fwd n :=
+  let H := fresh in
+  intros H; decompose [or and] H; clear H; try contradiction; subst n;
+  first [assumption | close_m].
 
 Lemma flags_equiv a ks fl0 bt vpb vkb :
   flag_mem VARARGS fl0 = vpb -> flag_mem VARKEYWORDS fl0 = vkb ->
@@ -227,15 +230,244 @@ Proof.
       pose proof (nil_no_ids _ H5 n) as N5; rewrite !fids_remove, F4 in N5; cbn [flag_id] in N5;
       unfold enc_fn_flags; cbn [fn_type]; cbv zeta; rewrite !fids_cond_add;
       unfold flags_union, FN_FLAGS; cbn [fold_left fntype_flag]; rewrite ?fids_add; cbn [fids map flag_id In];
-      pose proof (G ASYNC_GENERATOR) as G9; rewrite E9 in G9;
-      pose proof (G COROUTINE) as G7; rewrite E7 in G7;
-      pose proof (G GENERATOR) as G5; rewrite E5 in G5; cbn [flag_id] in *; clear G G' F1 F2 F3 F4;
-      by_ids n.
+      destruct E1 as (_ & _ & _ & _ & _ & HM1); destruct E0 as (_ & _ & _ & _ & _ & HM0);
+      try (apply G in E9; cbn [flag_id] in E9; destruct E9 as (_ & _ & _ & _ & _ & HM9));
+      try (apply G in E7; cbn [flag_id] in E7; destruct E7 as (_ & _ & _ & _ & _ & HM7));
+      try (apply G in E5; cbn [flag_id] in E5; destruct E5 as (_ & _ & _ & _ & _ & HM5));
+      clear G G' F1 F2 F3 F4; fold (M n) in N5;
+      (split; [fwd n|]); intros HM;
+      (destruct (Z.eq_dec n 0) as [->|?]; [first [pick|exfalso; apply N5; repeat split; first [assumption|lia]]|]);
+      (destruct (Z.eq_dec n 1) as [->|?]; [first [pick|exfalso; apply N5; repeat split; first [assumption|lia]]|]);
+      (destruct (Z.eq_dec n 2) as [->|?]; [first [pick|exfalso; apply N5; repeat split; first [assumption|lia]]|]);
+      (destruct (Z.eq_dec n 3) as [->|?]; [first [pick|exfalso; apply N5; repeat split; first [assumption|lia]]|]);
+      (destruct (Z.eq_dec n 4) as [->|?]; [first [pick|exfalso; apply N5; repeat split; first [assumption|lia]]|]);
+      (destruct (Z.eq_dec n 5) as [->|?]; [first [pick|exfalso; apply N5; repeat split; first [assumption|lia]]|]);
+      (destruct (Z.eq_dec n 6) as [->|?]; [first [pick|exfalso; apply N5; repeat split; first [assumption|lia]]|]);
+      (destruct (Z.eq_dec n 7) as [->|?]; [first [pick|exfalso; apply N5; repeat split; first [assumption|lia]]|]);
+      (destruct (Z.eq_dec n 9) as [->|?]; [first [pick|exfalso; apply N5; repeat split; first [assumption|lia]]|]);
+      (destruct (Z.eq_dec n 17) as [->|?]; [first [pick|exfalso; apply N5; repeat split; first [assumption|lia]]|]);
+      exfalso; apply N5; repeat split; first [assumption|lia].
   - (* not a function *)
     destruct (args_len a =? 0) eqn:Ez; cbn [negb] in Hbt; [|discriminate].
     inversion Hbt as [[Hb H5]]; subst bt; clear Hbt.
     destruct (Hz ltac:(lia)) as [-> ->].
     pose proof (nil_no_ids _ H5 n) as N5. rewrite F4 in N5.
     unfold enc_fn_flags. cbn [fids map In].
-    by_ids n.
+    clear G G' F1 F2 F3 F4. fold (M n) in N5.
+    split; [fwd n|]. intros HM.
+    destruct (Z.eq_dec n 2) as [->|?]; [exfalso; apply Bvp in HM; discriminate|].
+    destruct (Z.eq_dec n 3) as [->|?]; [exfalso; apply Bvk in HM; discriminate|].
+    destruct (Z.eq_dec n 4) as [->|?]; [pick|].
+    destruct (Z.eq_dec n 6) as [->|?]; [pick|].
+    destruct (Z.eq_dec n 17) as [->|?]; [pick|].
+    exfalso; apply N5; repeat split; first [assumption|lia].
+Qed.
+
+(* ------------------------------------------------------------------ *)
+(** * 3. The decoded Args and the parameter prefix of co_varnames *)
+
+Ltac split_andb :=
+  repeat match goal with
+         | H : _ && _ = true |- _ => apply andb_true_iff in H; destruct H
+         end.
+
+Lemma args_from_input_split A B K v3 fl :
+  args_from_input (zlen A + zlen B) (zlen A) (zlen K) (A ++ B ++ K ++ v3) fl =
+    match (if flag_mem VARARGS fl
+           then match v3 with [] => Err IndexError | x :: r => OK (Some x, r, flag_remove VARARGS fl) end
+           else OK (None, v3, fl)) with
+    | Err e => Err e
+    | OK (var_positional, v4, fl1) =>
+        match (if flag_mem VARKEYWORDS fl1
+               then match v4 with [] => Err IndexError | x :: r => OK (Some x, flag_remove VARKEYWORDS fl1) end
+               else OK (None, fl1)) with
+        | Err e => Err e
+        | OK (var_keyword, fl2) =>
+            OK ({| a_posonly := A; a_poskw := B; a_varpos := var_positional;
+                   a_kwonly := K; a_varkw := var_keyword |}, fl2)
+        end
+    end.
+Proof.
+  unfold args_from_input. cbv zeta.
+  replace (zlen A + zlen B - zlen A) with (zlen B) by lia.
+  rewrite !(slice_to_app A), !(slice_from_app A) by reflexivity.
+  rewrite !(slice_to_app B), !(slice_from_app B) by reflexivity.
+  rewrite !(slice_to_app K), !(slice_from_app K) by reflexivity.
+  reflexivity.
+Qed.
+
+(* when the decoder succeeds, *args / **kwargs have a name in co_varnames *)
+Lemma args_success_total ac po kw (vn : list str) fl a fl' :
+  0 <= po <= ac -> 0 <= kw -> ac + kw <= zlen vn ->
+  args_from_input ac po kw vn fl = OK (a, fl') ->
+  ac + kw + (if flag_mem VARARGS fl then 1 else 0) + (if flag_mem VARKEYWORDS fl then 1 else 0) <= zlen vn.
+Proof.
+  intros Hp Hk Hl H.
+  destruct (split_varnames ac po kw vn Hp Hk Hl) as [A [B [K [v3 [E [Ep [Ea Ek]]]]]]].
+  subst vn po ac kw. rewrite args_from_input_split in H. rewrite !zlen_app.
+  assert (Hvk1 : flag_mem VARKEYWORDS (flag_remove VARARGS fl) = flag_mem VARKEYWORDS fl)
+    by (apply flag_mem_remove_other; reflexivity).
+  pose proof (zlen_nonneg v3) as Hv3.
+  destruct (flag_mem VARARGS fl) eqn:Hv.
+  - destruct v3 as [|x v4]; [discriminate|]. rewrite Hvk1 in H.
+    assert (Z4 : zlen (x :: v4) = zlen v4 + 1) by (unfold zlen; cbn [length]; lia).
+    pose proof (zlen_nonneg v4).
+    destruct (flag_mem VARKEYWORDS fl) eqn:Hkw; [|lia].
+    destruct v4 as [|y v5]; [discriminate|].
+    assert (Z5 : zlen (y :: v5) = zlen v5 + 1) by (unfold zlen; cbn [length]; lia).
+    pose proof (zlen_nonneg v5). lia.
+  - destruct (flag_mem VARKEYWORDS fl) eqn:Hkw; [|lia].
+    destruct v3 as [|y v5]; [discriminate|].
+    assert (Z5 : zlen (y :: v5) = zlen v5 + 1) by (unfold zlen; cbn [length]; lia).
+    pose proof (zlen_nonneg v5). lia.
+Qed.
+
+Lemma existsb_firstn_false {A} (p : A -> bool) : forall n l,
+  existsb p l = false -> existsb p (firstn n l) = false.
+Proof.
+  induction n as [|n IH]; intros [|x l] H; try reflexivity. cbn [firstn existsb] in *.
+  apply orb_false_iff in H as [H1 H2]. rewrite H1. cbn [orb]. now apply IH.
+Qed.
+
+Lemma names_ok_firstn : forall n l, names_ok l = true -> names_ok (firstn n l) = true.
+Proof.
+  induction n as [|n IH]; intros [|x l] H; try reflexivity.
+  rewrite names_ok_unfold in H |- *. cbn [firstn forallb nd_str] in H |- *.
+  apply andb_true_iff in H as [H1 H2]. apply andb_true_iff in H1 as [Hx Hf].
+  apply andb_true_iff in H2 as [Hn Hd].
+  specialize (IH l). rewrite !names_ok_unfold in IH.
+  assert (IH2 : forallb (fun s : str => match s with [] => false | _ :: _ => true end) (firstn n l)
+                && nd_str (firstn n l) = true) by (apply IH; now rewrite Hf, Hd).
+  apply andb_true_iff in IH2 as [I1 I2].
+  apply negb_true_iff in Hn. rewrite Hx, I1, I2, (existsb_firstn_false _ n _ Hn). reflexivity.
+Qed.
+
+Lemma nodup_str_nd l : nodup_str l = nd_str l.
+Proof. induction l as [|x l IH]; [reflexivity|]. cbn [nodup_str nd_str]. now rewrite IH. Qed.
+
+Lemma NoDup_app_disjoint {A} (l1 l2 : list A) x : NoDup (l1 ++ l2) -> In x l1 -> In x l2 -> False.
+Proof.
+  induction l1 as [|y l1 IH]; intros H H1 H2; [destruct H1|].
+  cbn [app] in H. inversion H as [|? ? Hn Hd]; subst. destruct H1 as [->|H1].
+  - apply Hn. apply in_or_app. now right.
+  - now apply IH.
+Qed.
+
+Lemma str_truthy_some (o : option str) : (forall s, o = Some s -> s <> []) -> str_truthy o = is_some o.
+Proof. intros H. destruct o as [[|ch s]|]; try reflexivity. exfalso. now apply (H [] eq_refl). Qed.
+
+Lemma args_decode_facts ac po kw (vn : list str) fl a fl1 freevars :
+  0 <= po <= ac -> 0 <= kw -> ac + kw <= zlen vn -> names_ok vn = true ->
+  nodup_str freevars = true ->
+  args_from_input ac po kw vn fl = OK (a, fl1) ->
+  let total := ac + kw + (if flag_mem VARARGS fl then 1 else 0)
+               + (if flag_mem VARKEYWORDS fl then 1 else 0) in
+  total <= zlen vn /\ args_len a = total /\ args_to_varnames a = take total vn /\
+  fl1 = flag_remove VARKEYWORDS (flag_remove VARARGS fl) /\
+  zlen (a_posonly a) + zlen (a_poskw a) = ac /\ zlen (a_posonly a) = po /\ zlen (a_kwonly a) = kw /\
+  str_truthy (a_varpos a) = flag_mem VARARGS fl /\ str_truthy (a_varkw a) = flag_mem VARKEYWORDS fl /\
+  tables_wf vn freevars a = true.
+Proof.
+  intros Hp Hk Hl Hn Hfree Hafi total.
+  pose proof (args_success_total _ _ _ _ _ _ _ Hp Hk Hl Hafi) as Ht. fold total in Ht.
+  assert (Hnt : names_ok (take total vn) = true) by (apply names_ok_firstn; exact Hn).
+  destruct (args_is_inspect ac po kw vn fl a fl1 Hp Hk Ht Hnt Hafi) as (_ & Hlen & Hvn & Hfl).
+  fold total in Hlen, Hvn.
+  destruct (args_facts ac po kw vn fl Hp Hk Ht)
+    as [A [B [K [vp [vk [Hafi' [Ep [Ea [Ek [Htake [Hv [Hkw _]]]]]]]]]]]].
+  fold total in Htake. rewrite Hafi' in Hafi. inversion Hafi; subst a. clear Hafi. clear H1.
+  cbn [a_posonly a_poskw a_kwonly a_varpos a_varkw].
+  destruct (names_ok_parts _ Hnt) as [Hne _]. rewrite Htake in Hne.
+  assert (Tvp : str_truthy vp = is_some vp).
+  { apply str_truthy_some. intros s ->. apply Hne. cbn [opt_list]. rewrite !in_app_iff.
+    right. right. right. left. now left. }
+  assert (Tvk : str_truthy vk = is_some vk).
+  { apply str_truthy_some. intros s ->. apply Hne. cbn [opt_list]. rewrite !in_app_iff.
+    right. right. right. right. now left. }
+  split; [exact Ht|]. split; [exact Hlen|]. split; [exact Hvn|]. split; [first [exact Hfl|reflexivity]|].
+  split; [lia|]. split; [lia|]. split; [lia|]. split; [congruence|]. split; [congruence|].
+  (* tables_wf *)
+  unfold tables_wf. cbv zeta. rewrite Hlen, Hvn.
+  destruct (names_ok_parts _ Hn) as [_ Hnd].
+  assert (Hsplit : vn = take total vn ++ drop total vn) by (unfold take, drop; symmetry; apply firstn_skipn).
+  repeat (apply andb_true_iff; split).
+  - lia.
+  - apply forallb_forall. intros x Hx. apply negb_true_iff.
+    destruct (existsb (str_eqb x) (drop total vn)) eqn:E; [|reflexivity]. exfalso.
+    apply existsb_exists in E as [y [Hy Exy]]. apply str_eqb_spec in Exy. subst y.
+    rewrite Hsplit in Hnd. exact (NoDup_app_disjoint _ _ _ Hnd Hx Hy).
+  - rewrite nodup_str_nd. rewrite names_ok_unfold in Hnt. split_andb. assumption.
+  - now apply ConstsProofs.strlist_eqb_spec.
+  - exact Hfree.
+Qed.
+
+(* ------------------------------------------------------------------ *)
+(** * 4. What a successful decode_code exposes *)
+
+Lemma decode_code_inv c code ks d : decode_code c code ks = OK d ->
+  exists lm0 fl0 a fl1 bt lm' next_line lm'',
+    to_line_mapping (cfg_v310 c) (co_linetable code) (zlen (co_code code)) = OK lm0 /\
+    to_flags_data c (co_flags code) = OK fl0 /\
+    args_from_input (co_argcount code) (if cfg_v38 c then co_posonlyargcount code else 0)
+      (co_kwonlyargcount code) (co_varnames code) fl0 = OK (a, fl1) /\
+    flag_mem NOFREE fl1 = (match co_freevars code, co_cellvars code with [], [] => true | _, _ => false end) /\
+    decode_bt a ks (flag_remove NESTED (flag_remove F_annotations (flag_remove NOFREE fl1))) = OK (bt, []) /\
+    bytes_to_blocks key_eqb c (co_code code) (modify_line_offsets lm0 (co_firstlineno code))
+      (co_names code) (co_varnames code) (co_freevars code) (co_cellvars code) ks bt a
+      = OK (cd_blocks d, cd_addargs d, lm') /\
+    pop_additional_line lm' (zlen (co_code code)) = OK (next_line, lm'') /\
+    d = mkCD (cd_blocks d) (co_filename code) (co_firstlineno code) (co_name code) (co_stacksize code)
+             bt (co_freevars code)
+             (flag_mem F_annotations (flag_remove NOFREE fl1))
+             (flag_mem NESTED (flag_remove F_annotations (flag_remove NOFREE fl1)))
+             (match next_line with Some (l, offs) => Some (mkAddline l offs) | None => None end)
+             (cd_addargs d).
+Proof.
+  unfold decode_code. cbv zeta. intros H.
+  destruct (to_line_mapping (cfg_v310 c) (co_linetable code) (zlen (co_code code))) as [lm0|] eqn:M;
+    [|discriminate].
+  destruct (to_flags_data c (co_flags code)) as [fl0|] eqn:F; [|discriminate].
+  destruct (args_from_input (co_argcount code) (if cfg_v38 c then co_posonlyargcount code else 0)
+              (co_kwonlyargcount code) (co_varnames code) fl0) as [[a fl1]|] eqn:A; [|discriminate].
+  match type of H with (if negb (Bool.eqb ?x ?y) then _ else _) = _ =>
+    destruct (Bool.eqb x y) eqn:N; cbn [negb] in H; [|discriminate] end.
+  apply Bool.eqb_prop in N.
+  match type of H with match ?X with _ => _ end = _ =>
+    change X with (decode_bt a ks (flag_remove NESTED (flag_remove F_annotations (flag_remove NOFREE fl1)))) in H end.
+  destruct (decode_bt a ks (flag_remove NESTED (flag_remove F_annotations (flag_remove NOFREE fl1))))
+    as [[bt fl5]|] eqn:B; [|discriminate].
+  destruct fl5 as [|? ?]; [|discriminate].
+  match type of H with match ?X with _ => _ end = _ => destruct X as [[[blocks addl] lm']|] eqn:BB; [|discriminate] end.
+  destruct (pop_additional_line lm' (zlen (co_code code))) as [[next_line lm'']|] eqn:PP; [|discriminate].
+  inversion H; subst d. clear H. cbn [cd_blocks cd_addargs].
+  exists lm0, fl0, a, fl1, bt, lm', next_line, lm''. repeat split; try assumption; reflexivity.
+Qed.
+
+(* the block type is consistent with the constants *)
+Lemma decode_bt_consistent a ks fl4 bt fl5 :
+  decode_bt a ks fl4 = OK (bt, fl5) -> bt_consistent bt a ks = true.
+Proof.
+  unfold decode_bt. intros H.
+  assert (Hdoc : forall tp, bt_consistent (Some (mkFunction a (match ks with KInner (IStr s) :: _ => Some s | _ => None end) tp)) a ks = true).
+  { intros tp. unfold bt_consistent. cbn [fn_args fn_doc].
+    rewrite (proj2 (ConstsProofs.args_eqb_spec a a) eq_refl). cbn [andb].
+    destruct ks as [|[[]|] r]; try reflexivity. now apply str_eqb_spec. }
+  destruct (filter (fun f => flag_mem f fl4) FN_FLAGS) as [|? [|? [|? ?]]]; try discriminate.
+  - destruct (args_len a =? 0) eqn:E; cbn [negb] in H; [|discriminate]. inversion H; subst. exact E.
+  - cbv zeta in H.
+    destruct (filter (fun ft : flag * fntype => flag_mem (fst ft) fl4) FN_TYPE_FLAGS) as [|[fx tx] [|? ?]];
+      try discriminate; inversion H; subst; apply Hdoc.
+Qed.
+
+Lemma decode_bt_shape a ks fl4 bt fl5 :
+  decode_bt a ks fl4 = OK (bt, fl5) ->
+  (bt = None /\ args_len a = 0) \/ (exists doc tp, bt = Some (mkFunction a doc tp)).
+Proof.
+  unfold decode_bt. intros H.
+  destruct (filter (fun f => flag_mem f fl4) FN_FLAGS) as [|? [|? [|? ?]]]; try discriminate.
+  - destruct (args_len a =? 0) eqn:E; cbn [negb] in H; [|discriminate]. inversion H; subst.
+    left. split; [reflexivity|lia].
+  - cbv zeta in H.
+    destruct (filter (fun ft : flag * fntype => flag_mem (fst ft) fl4) FN_TYPE_FLAGS) as [|[fx tx] [|? ?]];
+      try discriminate; inversion H; subst; right; eauto.
 Qed.
